@@ -67,3 +67,6 @@ Check (C08_drain_conserves : forall ids ms m c, LInvS ms m ->
 Check (C08_deleting_entities_conserves : forall ids ms m c, LInvS ms m ->
   let '(ms', c') := m_drop_all ms ids c in
   cx_stuck c' = cx_stuck c /\ exists m', LInvS ms' m' /\ conserves m m' [] [] c c').
+Check (C08_entry_api_conserves : forall ms m av e o c, LInvS ms m ->
+  let '(ms', r, c') := st_entry ms av e o c in
+  exists m', LInvS ms' m' /\ cx_stuck c' = cx_stuck c /\ conserves m m' (entry_ins ms o) (entry_rets o r) c c').
